@@ -351,6 +351,8 @@ fn malformed_cases(out: &mut Vec<Case>) {
         ("x := [1, ..[2]]", "collect outside a pattern"),
         ("x := {\"a\": 1, ..{}}", "collect outside a pattern (object)"),
         ("print([..[1]])", "collect outside a pattern (argument)"),
+        ("fn f(..r) {\n}\nf(1, ..[2])", "collect in an argument list"),
+        ("fn f(..r) {\n}\nf(..[2])", "collect as the only argument"),
         ("[a, b] := [1]", "too few"),
         ("[a] := [1, 2]", "too many"),
         ("[a, b, ..r] := [1]", "too few for collect"),
@@ -399,6 +401,7 @@ fn spread_cases(out: &mut Vec<Case>) {
         out.push(Case::new(format!("xs := [1, 2, 3]\n[xs[0], xs[1], xs[2]] = [xs[{}], xs[{}], xs[{}]]\nprint(xs)\n", perm[0], perm[1], perm[2]), T_REF, format!("simultaneous element assignment {:?}", perm)));
         out.push(Case::new(format!("o := {{\"p\": 1, \"q\": 2, \"r\": 3}}\n{{\"p\": o.{}, \"q\": o.{}, \"r\": o.{}}} = {{\"p\": o.p, \"q\": o.q, \"r\": o.r}}\nprint(o)\n", names[perm[0]], names[perm[1]], names[perm[2]]), T_REF, format!("simultaneous property assignment {:?}", perm)));
     }
+    out.push(Case::new("fn third(_, _, c) {\nreturn c\n}\nprint(third(1, 2, 3))\nfn tail(_, .._) {\nreturn 1\n}\nprint(tail(1, 2, 3))\ng := fn (_, [_, _], .._) {\nreturn 2\n}\nprint(g(1, [2, 3]))\nfor [_, _] in [1, 2] {\nprint(\"i\")\n}\n".to_string(), T_REF, "several discards in one parameter list".to_string()));
     out.push(Case::new("a := 1\nb := 2\n[a, b] = [b, a + b]\nprint([a, b])\n[a, b] := [b, a]\n".to_string(), T_REF, "fibonacci step then redeclaration".to_string()));
     // object spread round trip
     for mask in 0..8u32 {
